@@ -103,8 +103,8 @@ CLAIMED.update({
 CLAIMED.update({
  'C08': dict(
    technique='Lean 4 proof: zero-extension irrelevance and agreement of all loaders (corollary of the ε-copy framing theorem with trailing bytes), region arithmetic, injectivity of the flag translation; correspondence on real store/load_full/load_mem/load_mmap/mmap with the region observed through the hook',
-   text='Kernel-checked: region_mem / region_mmap / region_map (the backing region is the file followed by zeros only up to the next multiple of 64 resp. 16; or the file itself), loaders_agree (ε-copy deserialization of the region of any loader describes the stored value, consumes exactly the file, and every borrowed part lies inside the file part of the region on its unit), load_full_agrees, flags_injective (decide over the 8 flag sets). The run stores real values, loads them with the four loaders and all 8 flag sets, compares the loaded structure (printed through Deref) with the model, reads back the region range (hook verif_backend_range) and its tail bytes, checks the flag translation (hook verif_mmap_flags), then moves, boxes, shares with 4 threads and sends the case to another thread and re-reads it.',
-   note='mmap-rs, the kernel, std::alloc and File are assumed to deliver the file bytes at the stated alignment; thread interleavings are not modelled (the structure is immutable after construction: an argument, not a theorem); only the default feature set is built by the quick tier (the no-mmap configuration is not exercised).',
+   text='Kernel-checked: region_mem / region_mmap / region_map (the backing region is the file followed by zeros only up to the next multiple of 64 resp. 16; or the file itself), loaders_agree (ε-copy deserialization of the region of any loader describes the stored value, consumes exactly the file, and every borrowed part lies inside the file part of the region on its unit), load_full_agrees, flags_injective (decide over the 8 flag sets). The run stores real values, loads them with the four loaders and all 8 flag sets, compares the loaded structure (printed through Deref) with the model, reads back the region range (hook verif_backend_range) and its tail bytes, checks the flag translation (hook verif_mmap_flags), then moves, boxes, shares with 4 threads and sends the case to another thread and re-reads it; the load_full / load_mem cases are run again against the crate built without the mmap feature.',
+   note='mmap-rs, the kernel, std::alloc and File are assumed to deliver the file bytes at the stated alignment; thread interleavings are not modelled (the structure is immutable after construction: an argument, not a theorem); the loaders exist in two feature configurations (default, and std + derive without mmap): both are built and run; the alloc-only / no_std configurations of the crate do not compile at the pinned commit (129 errors) and have no file loaders.',
    design='5/C08'),
  'C09': dict(
    technique='Lean 4 proof: invariant over all paths of the load resource machine (release exactly once, after the last use), lifetime algebra of the API signatures; correspondence by leak measurement (counting allocator, /proc/self/maps) and compile outcomes of probe programs',
